@@ -84,9 +84,14 @@ where
                     }
                 }
                 let (start, end, text_element_type, termination_reason) = self.get_text_slice()?;
-                if start != end {
+                // A line that starts with a placeable takes part in the dedentation as well:
+                // its indent counts towards the common indent and any excess is kept as text.
+                let placeable_led = text_element_role == TextElementPosition::LineStart
+                    && termination_reason == TextElementTermination::PlaceableStart
+                    && start == end;
+                if start != end || placeable_led {
                     if text_element_role == TextElementPosition::LineStart
-                        && text_element_type == TextElementType::NonBlank
+                        && (text_element_type == TextElementType::NonBlank || placeable_led)
                     {
                         if let Some(common) = common_indent {
                             if indent < common {
@@ -99,6 +104,7 @@ where
                     if text_element_role != TextElementPosition::LineStart
                         || text_element_type == TextElementType::NonBlank
                         || termination_reason == TextElementTermination::LineFeed
+                        || placeable_led
                     {
                         if text_element_type == TextElementType::NonBlank {
                             last_non_blank = Some(elements.len());
@@ -107,6 +113,7 @@ where
                         let (element_start, element_indent) = if text_element_role
                             == TextElementPosition::LineStart
                             && text_element_type == TextElementType::Blank
+                            && !placeable_led
                         {
                             (end - 1, 0)
                         } else {
@@ -135,9 +142,9 @@ where
                 .into_iter()
                 .take(last_non_blank + 1)
                 .enumerate()
-                .map(|(i, elem)| match elem {
+                .filter_map(|(i, elem)| match elem {
                     PatternElementPlaceholders::Placeable(expression) => {
-                        ast::PatternElement::Placeable { expression }
+                        Some(ast::PatternElement::Placeable { expression })
                     }
                     PatternElementPlaceholders::TextElement(start, end, indent, role) => {
                         let start = if role == TextElementPosition::LineStart {
@@ -148,11 +155,15 @@ where
                         } else {
                             start
                         };
+                        if start == end {
+                            // the indent of a placeable-led line was entirely common indent
+                            return None;
+                        }
                         let mut value = self.source.slice(start..end);
                         if last_non_blank == i {
                             value.trim();
                         }
-                        ast::PatternElement::TextElement { value }
+                        Some(ast::PatternElement::TextElement { value })
                     }
                 })
                 .collect();
